@@ -282,6 +282,42 @@ def gen(tier, seed, prop):
                 rid = f"p{n}"
                 recs.append(one(rid, fname, A, B, lift, prop))
                 meta[rid] = {"fn": fname, "A": A.describe(), "B": B.describe(), "lift": [lift[0], lift[1].tolist(), lift[2].tolist()], "family": "corner-over-face"}
+    # systematic family (independent of the seed): the first primitive sits ON the axis of the second one - a point at the centre of
+    # a circle / disk / ellipsoid / cylinder / box / rectangle and on the axis through it, lines and segments along that axis and
+    # across it through the centre.  These are the branches "on the line defined by centre and normal", "point is the centre",
+    # "line through the centre along the normal" that random anchors never reach (coverage of the interpreted library under this
+    # check showed them unvisited)
+    arng = random.Random(815)
+    for fname in PR.FUNCTIONS:
+        ka, kb = PR.kinds_of(fname)
+        if ka not in ("point", "line", "line_segment") or kb not in ("circle", "disk", "ellipsoid", "cylinder", "box", "rectangle"):
+            continue
+        for rep in range(3):
+            B = PR.rand_prim(kb, arng, reach=3)
+            if int(B.p.get("N", 1)) != 1:
+                continue
+            axis = np.array(B.p["n"] if "n" in B.p else np.array(B.p["M"])[:, 2], dtype=int)
+            perp = np.array(PR.ortho_int(axis)[0], dtype=int)
+            c = np.array(B.p["c"], dtype=int)
+            variants = []
+            for k in (0, 1, 4):
+                anchor = c + k * axis
+                if ka == "point":
+                    variants.append(PR.Prim("point", x=[int(x) for x in anchor]))
+                elif ka == "line":
+                    variants.append(PR.Prim("line", x=[int(x) for x in anchor], d=[int(x) for x in axis]))
+                    variants.append(PR.Prim("line", x=[int(x) for x in anchor], d=[int(x) for x in perp]))
+                else:
+                    variants.append(PR.Prim("line_segment", a=[int(x) for x in anchor], b=[int(x) for x in anchor + 2 * axis]))
+                    variants.append(PR.Prim("line_segment", a=[int(x) for x in anchor - axis], b=[int(x) for x in anchor + axis]))
+                    variants.append(PR.Prim("line_segment", a=[int(x) for x in anchor - 2 * perp], b=[int(x) for x in anchor + 2 * perp]))
+            for A in variants:
+                for lk in ("id", "rigid1"):
+                    lift = prim_lift(arng, A, B, lk)
+                    n += 1
+                    rid = f"p{n}"
+                    recs.append(one(rid, fname, A, B, lift, prop))
+                    meta[rid] = {"fn": fname, "A": A.describe(), "B": B.describe(), "lift": [lift[0], lift[1].tolist(), lift[2].tolist()], "family": "on-axis"}
     # pinned inputs of the known findings (deterministic, independent of the seed)
     import json, os
     pinned = [("disk_to_disk", PR.Prim("disk", c=[-5, -1, 0], r=3, n=[-1, 1, 1]), PR.Prim("disk", c=[-6, -1, 3], r=3, n=[1, -1, 0]), NW.IDENT)]
